@@ -4,7 +4,10 @@ import (
 	"fmt"
 	"go/ast"
 	"go/token"
+	"go/types"
 	"regexp"
+	"regexp/syntax"
+	"sort"
 	"strings"
 
 	"olacheck/core"
@@ -107,8 +110,93 @@ func init() {
 				gen("", 5)
 				c.Check(diff == "", "grammar:"+x.key, init.Pos(), "%s", map[bool]string{true: fmt.Sprintf("%s = %s agrees with the specification's grammar on %d probes", x.varName, src, n), false: diff}[diff == ""])
 			}
+			// every pattern of the module written to match whole strings (it starts with ^ and ends with $) does so in each
+			// of its alternatives: `^a|b$` anchors the first alternative at the start only and the second at the end only
+			c.SetTags("anchor")
+			var pkPaths []string
+			for pp := range c.P.All {
+				pkPaths = append(pkPaths, pp)
+			}
+			sort.Strings(pkPaths)
+			for _, pp := range pkPaths {
+				pk := c.P.All[pp]
+				for _, f := range pk.Syntax {
+					if strings.HasSuffix(c.P.Fset.Position(f.Pos()).Filename, "_test.go") {
+						continue
+					}
+					for _, d := range f.Decls {
+						gd, ok := d.(*ast.GenDecl)
+						if !ok || gd.Tok != token.VAR {
+							continue
+						}
+						for _, sp := range gd.Specs {
+							vs, ok := sp.(*ast.ValueSpec)
+							if !ok {
+								continue
+							}
+							for i, nm := range vs.Names {
+								if i >= len(vs.Values) {
+									continue
+								}
+								call, ok := vs.Values[i].(*ast.CallExpr)
+								if !ok || len(call.Args) != 1 {
+									continue
+								}
+								if fn, ok := typeutilCallee(pk, call).(*types.Func); !ok || fn.Pkg() == nil || fn.Pkg().Path() != "regexp" || !strings.Contains(fn.Name(), "Compile") {
+									continue
+								}
+								src, ok := evalStringExpr(pk, call.Args[0], 0)
+								if !ok || !strings.HasPrefix(src, "^") || !strings.HasSuffix(src, "$") || strings.HasSuffix(src, `\$`) {
+									continue
+								}
+								re, err := syntax.Parse(src, syntax.Perl)
+								if err != nil {
+									continue
+								}
+								key := "anchored:" + pk.Types.Name() + "." + nm.Name
+								okA := reBegins(re) && reEnds(re)
+								c.Check(okA, key, call.Pos(), "%s = %s is anchored at both ends in every alternative: %v — an alternation that splits the anchors matches strings that only start or only end like the pattern", nm.Name, src, okA)
+							}
+						}
+					}
+				}
+			}
 			c.SetTags()
 		}})
+}
+
+func reBegins(re *syntax.Regexp) bool {
+	switch re.Op {
+	case syntax.OpBeginText:
+		return true
+	case syntax.OpConcat, syntax.OpCapture:
+		return len(re.Sub) > 0 && reBegins(re.Sub[0])
+	case syntax.OpAlternate:
+		for _, s := range re.Sub {
+			if !reBegins(s) {
+				return false
+			}
+		}
+		return len(re.Sub) > 0
+	}
+	return false
+}
+
+func reEnds(re *syntax.Regexp) bool {
+	switch re.Op {
+	case syntax.OpEndText:
+		return true
+	case syntax.OpConcat, syntax.OpCapture:
+		return len(re.Sub) > 0 && reEnds(re.Sub[len(re.Sub)-1])
+	case syntax.OpAlternate:
+		for _, s := range re.Sub {
+			if !reEnds(s) {
+				return false
+			}
+		}
+		return len(re.Sub) > 0
+	}
+	return false
 }
 
 var _ = token.NoPos
